@@ -59,13 +59,18 @@ class Sched {
  public:
   Sched(std::vector<long> schedule, long budget, bool allowTimeouts)
       : sched_(std::move(schedule)), budget_(budget), allowTimeouts_(allowTimeouts) {
+    ths_.reserve(1024);   // spawned threads index ths_ while later spawns push_back: never reallocate
     g_sched = this;
   }
 
   int spawn(std::function<void()> fn) {
-    int id = static_cast<int>(ths_.size());
-    ths_.push_back(new Th());
-    Th* t = ths_.back();
+    Th* t = new Th();
+    int id;
+    {
+      std::unique_lock<std::mutex> lk(mu_);
+      id = static_cast<int>(ths_.size());
+      ths_.push_back(t);
+    }
     t->thr = std::thread([this, id, fn]() {
       t_self = id;
       point("start", nullptr);
